@@ -439,6 +439,14 @@ def run(ctx: Ctx) -> int:
     order_free = any(isinstance(c, ast.Call) and call_leaf(c) == "any" for c in ast.walk(io_)) and not any(isinstance(x, ast.Subscript) and isinstance(x.value, ast.Attribute) and x.value.attr == "__args__" and isinstance(x.slice, ast.Constant) for x in ast.walk(io_))
     ctx.oblige("C02.h", order_free, io_, "is_optional does not depend on the position of None among the members" if order_free else "is_optional reads a Union member by position", fn=io_, construct="is_optional order-free")
 
+    # ---------------- C02.g (the table of TypedDict metaclasses starts from the imported metaclass) ---------------------------
+    th_mod = ctx.repo.mod("_typehints")
+    tdm = [st for st in th_mod.tree.body if isinstance(st, (ast.Assign, ast.AnnAssign)) and any(isinstance(t, ast.Name) and t.id == "typed_dict_meta_types" for t in (st.targets if isinstance(st, ast.Assign) else [st.target]))]
+    ctx.need(len(tdm) == 1 and tdm[0].value is not None, "module-level typed_dict_meta_types table in _typehints")
+    names_t = {x.id for x in ast.walk(tdm[0].value) if isinstance(x, ast.Name)}
+    ok = "_TypedDictMeta" in names_t and not any(isinstance(x, ast.Call) and call_leaf(x) == "TypedDict" for x in ast.walk(tdm[0].value))
+    ctx.oblige("C02.g", ok, tdm[0], "the TypedDict metaclass table is built from the metaclass imported through typing_extensions_import (plus the captured shadows)" if ok else f"`{ast.unparse(tdm[0])[:90]}` derives the TypedDict metaclass from typing's own TypedDict: the metaclass of typing_extensions.TypedDict (a different class on this Python) is not in the table, such a hint is treated as a bare dict - foreign keys accepted, required keys not enforced", function="_typehints:<module>", site=f"_typehints:<module> :: {ast.unparse(tdm[0])[:80]}", construct="typed_dict_meta_types table")
+
     return ctx.finish(
         explanation=(
             "(a) The Union arm of adapt_typehints is abstracted to a finite automaton over per-iteration symbols V (member accepted, break), O (string fallback appended), "
